@@ -105,3 +105,55 @@ func splitRes(name string) (string, string) {
 	}
 	return name, ""
 }
+
+// rangeIndexInv: for a range-over-slice/array/int loop header the hidden index phi ("rangeindex")
+// starts at -1 and only ever increases by one, so it is >= -1 (and far from wrapping).
+func (x *Exec) rangeIndexInv(fr *Frame, b *ssa.BasicBlock) *Term {
+	for _, ins := range b.Instrs {
+		phi, ok := ins.(*ssa.Phi)
+		if !ok {
+			break
+		}
+		if phi.Comment == "rangeindex" {
+			if v, ok := fr.vals[phi].(*Term); ok && v.Sort.K == KBV && v.Sort.W == 64 {
+				return And(BVCmp("bvsge", v, BVConst(bigInt(-1), 64)), BVCmp("bvslt", v, bv62))
+			}
+		}
+	}
+	return nil
+}
+
+// bigFreshRooted reports whether a *big.Int operand is syntactically an object allocated by the
+// function itself (new(big.Int), big.NewInt, or the receiver-returning result of a method on one).
+func bigFreshRooted(v ssa.Value, depth int) bool {
+	if depth > 6 {
+		return false
+	}
+	switch a := v.(type) {
+	case *ssa.Alloc:
+		return true
+	case *ssa.Call:
+		fn := a.Common().StaticCallee()
+		if fn == nil {
+			return false
+		}
+		k := funcKey(fn)
+		if k == "math/big.NewInt" {
+			return true
+		}
+		if strings.HasPrefix(k, "math/big.(*Int).") && len(a.Common().Args) > 0 {
+			switch strings.TrimPrefix(k, "math/big.(*Int).") {
+			case "Add", "Sub", "Mul", "Div", "Quo", "Neg", "Abs", "Set", "SetUint64", "SetInt64", "SetBytes":
+				return bigFreshRooted(a.Common().Args[0], depth+1)
+			}
+		}
+	case *ssa.Phi:
+		for _, e := range a.Edges {
+			if !bigFreshRooted(e, depth+1) {
+				return false
+			}
+		}
+		return true
+	}
+	return false
+}
